@@ -899,6 +899,7 @@ package runtime
 //@   requires tblOK(t) && valueOK(k)
 //@   modifies nothing
 //@   assert_before_call (*hashTable).next#3: !k.IsNil() ==> normKey(k, $k)
+//@   assert_before_call (*array).next: k.IsNil() || $i >= 1   // position 0 of the array part is the start marker (nil), never a key: the integer key 0 lives in the hash part
 
 // C06: the `..` operator charges the size of its result before building it.
 //@ func Concat
